@@ -616,7 +616,7 @@ impl World {
                 self.inc[e].clear();
             }
             ("deliver", _) => {
-                if matches!(t[1], "err" | "eof" | "close" | "closeerr" | "err2") {
+                if matches!(t[1], "err" | "eof" | "close" | "closeerr" | "err2" | "closemany") {
                     self.view[e].terminated_by = Some(t[1].into());
                     self.faulted = true;
                     self.ep_faulted[e] = true;
@@ -1155,6 +1155,20 @@ fn run_case(r: &mut Rng, focus: Focus, len: usize) -> World {
             match r.below(8) {
                 // a second fault while the wind-down is already running: the peer's Close followed by a
                 // reset of the connection, a receive half that reports its failure twice
+                // the peer's Close with up to three of its frames right behind it (whatever it has on the
+                // wire: answers to this endpoint's requests, data), dispatched by the wind-down
+                0 | 1 if matches!(focus, Focus::C08 | Focus::C12) && r.chance(1, 3) && w.wire[1 - e].front().is_some_and(|m| !matches!(m.as_str(), "ping" | "pong" | "close")) => {
+                    let mut t = vec![s("deliver"), s("closemany")];
+                    let n = r.range(1, 3);
+                    for _ in 0..n {
+                        match w.wire[1 - e].front() {
+                            Some(m) if !matches!(m.as_str(), "ping" | "pong" | "close") => { t.push(w.wire[1 - e].pop_front().unwrap()); }
+                            _ => break,
+                        }
+                    }
+                    w.exchanged = true;
+                    w.stim(e, &t);
+                }
                 0 if matches!(focus, Focus::C08) && r.chance(1, 2) => { w.stim(e, &[s("deliver"), s("closeerr")]); }
                 1 if matches!(focus, Focus::C08) && r.chance(1, 2) => { w.stim(e, &[s("deliver"), s("err2")]); }
                 0 => { w.stim(e, &[s("deliver"), s("close")]); }
@@ -1586,9 +1600,13 @@ fn final_checks(w: &mut World) {
                 if out.starts_with("pending") {
                     w.fail("C08", "read-pending-after-end", format!("a read on {}#{h} stays pending after the connection task ended", NAMES[e]));
                 }
-                let out = w.stim(e, &[s("write"), s(h), s("aa")]);
-                if !out.starts_with("brokenpipe") {
-                    w.fail("C08", "write-after-end", format!("a write on {}#{h} after the connection ended answered `{out}` instead of BrokenPipe", NAMES[e]));
+                // (more writes than any window the peer may have granted: none may be accepted or block)
+                for k in 0..w.opts[1 - e].rwnd + 2 {
+                    let out = w.stim(e, &[s("write"), s(h), s("aa")]);
+                    if !out.starts_with("brokenpipe") {
+                        w.fail("C08", "write-after-end", format!("write #{} on {}#{h} after the connection ended answered `{out}` instead of BrokenPipe", k + 1, NAMES[e]));
+                        break;
+                    }
                 }
             }
         }
@@ -1656,6 +1674,11 @@ fn replay_lines(lines: &[String]) -> Option<World> {
         if toks[0] == "deliver" && toks.get(1).map(String::as_str) == Some("bin") {
             // an injected frame unless it is the head of the peer's wire
             if w.wire[1 - e].front() == toks.get(2) { w.wire[1 - e].pop_front(); } else { w.injected = true; }
+        } else if toks[0] == "deliver" && toks.get(1).map(String::as_str) == Some("closemany") {
+            // the frames behind the Close are the head of the peer's wire, or injected
+            for h in &toks[2..] {
+                if w.wire[1 - e].front() == Some(h) { w.wire[1 - e].pop_front(); } else { w.injected = true; }
+            }
         } else if toks[0] == "deliver" && toks.get(1).map(String::as_str) == Some("close") && w.wire[1 - e].front().map(String::as_str) == Some("close") {
             w.wire[1 - e].pop_front();
         }
@@ -1784,7 +1807,7 @@ fn link_projections(w: &World) -> Vec<(String, Vec<LinkReq>)> {
                 if evs.split("; ").any(|ev| ev.starts_with("exit ")) { break; }
                 match t[0] {
                     "dropmux" => break,
-                    "deliver" if matches!(t.get(2), Some(&"err" | &"eof" | &"close" | &"closeerr" | &"err2")) => break,
+                    "deliver" if matches!(t.get(2), Some(&"err" | &"eof" | &"close" | &"closeerr" | &"err2" | &"closemany")) => break,
                     "write" | "writev" if e == we && t.get(2).and_then(|x| x.parse::<usize>().ok()) == Some(wh) => {
                         let data: Vec<u8> = t[3..].iter().flat_map(|p| unhex(p).unwrap_or_default()).collect();
                         let d = if data.is_empty() { "-".to_string() } else { hexd(&data) };
@@ -1953,7 +1976,7 @@ fn main() {
             let res = st.out.split(' ').next().unwrap_or("?");
             rep.count(&format!("res/{op}/{res}"));
             if op == "deliver" {
-                if let Some(k) = st.line.split(' ').nth(2).filter(|k| matches!(*k, "err" | "eof" | "close" | "closeerr" | "err2")) {
+                if let Some(k) = st.line.split(' ').nth(2).filter(|k| matches!(*k, "err" | "eof" | "close" | "closeerr" | "err2" | "closemany")) {
                     rep.count(&format!("fault/{k}"));
                 }
             }
